@@ -28,6 +28,8 @@ type Case struct {
 	Depth   int    `json:"depth"`
 	Rich    bool   `json:"rich"`
 	Choices []int  `json:"choices"`
+	Kind    string `json:"kind,omitempty"` // tails family
+	K       int    `json:"k,omitempty"`
 	Source  string `json:"source,omitempty"`
 }
 
@@ -47,6 +49,8 @@ func program(c Case) (*gen.Program, string) {
 	case "func":
 		p := gen.Replay(c.Choices, gen.Funcs(gen.FuncCfg{Budget: c.Budget}))
 		return p, "func"
+	case "tails":
+		return gen.Tails(c.Kind, c.K), "tails:" + c.Kind
 	}
 	return nil, ""
 }
@@ -238,6 +242,30 @@ func main() {
 			})
 		}
 	}
+	// tails family: the last statement of a function varied over kinds and operand values 0..40
+	var tails []Case
+	for _, k := range gen.TailKinds {
+		for i := 0; i < gen.TailCount(k); i++ {
+			tails = append(tails, Case{Family: "tails", Kind: k, K: i})
+		}
+	}
+	report.ParallelFor(len(tails), func(i int) {
+		c := tails[i]
+		fails, obs := runCase(c, &st)
+		atomic.AddInt64(&evals, 1)
+		prog, _ := program(c)
+		text := tg.Print(prog).AllText
+		distinct.Add(text)
+		if !strings.HasPrefix(obs, "compile:") {
+			atomic.AddInt64(&compiled, 1)
+		}
+		r.Outcome("tails/" + obs)
+		r.Count("programs/tails", 1)
+		for _, fl := range fails {
+			c.Source = text
+			r.Violation(fl.sig, fl.what, c)
+		}
+	})
 	r.Set("functions_checked", st.funcs)
 	r.Set("vm_steps_probed", st.steps)
 	r.Set("programs_compiled", compiled)
